@@ -164,8 +164,26 @@ def concrete_search(qn, c: S.Contract, pid, rng, budget, want=None, collect_path
 def _child(h, tier, seed, conn):
     try:
         conn.send(("ok", h(tier, seed)))
-    except BaseException:
-        conn.send(("err", traceback.format_exc(limit=8)))
+    except BaseException as ex:
+        # an exception that escaped from the repository's code (the harness calls it with inputs the unchanged tree
+        # handles; every harness passes on the unchanged tree) is the real code refusing or failing on a valid input:
+        # reported as a violation of the clause "... returns ...", with the traceback.  An exception raised by harness
+        # code itself stays a checker fault.
+        repo_root = os.path.realpath(os.environ.get("VERIF_REPO", "/repo")) + os.sep
+        frames = traceback.extract_tb(ex.__traceback__)
+        files = [os.path.realpath(f.filename) for f in frames]
+        through_repo = any(f.startswith(repo_root) for f in files)
+        last_own = max((i for i, f in enumerate(files) if f.startswith(ROOT + os.sep)), default=-1)
+        last_repo = max((i for i, f in enumerate(files) if f.startswith(repo_root)), default=-1)
+        if through_repo and last_repo > last_own and not isinstance(ex, (KeyboardInterrupt, SystemExit, MemoryError)):
+            where = frames[last_repo]
+            name = getattr(h, "__module__", "").rpartition(".")[2]
+            conn.send(("ok", {"name": name, "evaluations": 0, "distinct_nontrivial": 0, "samples": [],
+                              "rule": "the harness did not finish: the real code raised", "exhaustive": False,
+                              "violations": [("real-code-raises", {"where": f"{where.filename}:{where.lineno} in {where.name}"},
+                                              traceback.format_exc(limit=12))]}))
+        else:
+            conn.send(("err", traceback.format_exc(limit=8)))
     conn.close()
 
 
